@@ -1,0 +1,44 @@
+//! Verification hooks for the validator network (cargo feature `verif`). No logic, only wrappers.
+#![allow(missing_docs, clippy::missing_docs_in_private_items)]
+use zksync_concurrency::ctx;
+use zksync_consensus_roles::{node, validator};
+
+use super::handshake;
+pub(crate) use super::handshake::Handshake as HandshakeMsg;
+use crate::verif::NoiseTcp;
+
+/// The real inbound validator-network handshake. Returns the authenticated peer key.
+pub async fn handshake_inbound(
+    ctx: &ctx::Ctx,
+    me: &validator::SecretKey,
+    genesis: validator::GenesisHash,
+    stream: &mut NoiseTcp,
+) -> Result<validator::PublicKey, String> {
+    handshake::inbound(ctx, me, genesis, &mut stream.0)
+        .await
+        .map_err(|e| format!("{e:#}"))
+}
+
+/// The real outbound validator-network handshake.
+pub async fn handshake_outbound(
+    ctx: &ctx::Ctx,
+    me: &validator::SecretKey,
+    genesis: validator::GenesisHash,
+    stream: &mut NoiseTcp,
+    peer: &validator::PublicKey,
+) -> Result<(), String> {
+    handshake::outbound(ctx, me, genesis, &mut stream.0, peer)
+        .await
+        .map_err(|e| format!("{e:#}"))
+}
+
+/// Builds the wire encoding of a validator-network handshake message from its parts.
+pub fn encode_handshake(
+    session_id: validator::Signed<node::SessionId>,
+    genesis: validator::GenesisHash,
+) -> Vec<u8> {
+    zksync_protobuf::encode(&HandshakeMsg {
+        session_id,
+        genesis,
+    })
+}
